@@ -527,7 +527,9 @@ fn long_collections_keep_their_announced_length() {
 fn scalar_kinds_and_integer_boundaries_survive_the_streaming_path() {
 	let mut bad = vec![];
 	// JSON text -> MessagePack bytes, every integer boundary keeps its value and its integer-ness
-	let cases: [(&str, &[u8]); 12] = [
+	let cases: [(&str, &[u8]); 13] = [
+		// exactly representable as binary32, but its shortest binary64 spelling is long: must stay a binary64
+		("0.10000000149011612", &[0xcb, 0x3f, 0xb9, 0x99, 0x99, 0xa0, 0x00, 0x00, 0x00]),
 		("18446744073709551615", &[0xcf, 0xff, 0xff, 0xff, 0xff, 0xff, 0xff, 0xff, 0xff]),
 		("9223372036854775808", &[0xcf, 0x80, 0, 0, 0, 0, 0, 0, 0]),
 		("9223372036854775807", &[0xcf, 0x7f, 0xff, 0xff, 0xff, 0xff, 0xff, 0xff, 0xff]),
